@@ -1,0 +1,11 @@
+//go:build verif
+
+package notification
+
+import mqtt "github.com/eclipse/paho.mqtt.golang"
+
+// NewNotifierWithClient builds a Notifier over an already connected mqtt.Client.
+// Only compiled with the build tag `verif` (deterministic-simulation checks).
+func NewNotifierWithClient(client mqtt.Client) *Notifier {
+	return &Notifier{mqttClient: client}
+}
